@@ -15,6 +15,7 @@ import QV.Drive.C07
 import QV.Drive.C12
 import QV.Drive.C08
 import QV.Drive.C01
+import QV.Drive.Ast2Ast
 /-! `qvdriver`: one JSON request per input line, one JSON reply per output line. -/
 open Lean
 
@@ -36,7 +37,8 @@ def dispatch (j : Json) : Except String Json := do
     QV.Drive.C07.handle,
     QV.Drive.C12.handle,
     QV.Drive.C08.handle,
-    QV.Drive.C01.handle
+    QV.Drive.C01.handle,
+    QV.Drive.Ast2Ast.handle
   ]
   for h in handlers do
     if let some r := h op j then return ← r
